@@ -91,6 +91,7 @@ def run_history(we, ops):
         try:
             uni = make_universe()
             counter = [0]
+            deco_used = set()
             if we:
                 warnings.simplefilter('error')
             else:
@@ -108,7 +109,23 @@ def run_history(we, ops):
                     def un(md, ch, cls=cls):
                         return cls(*ch) if cls is not os.terminal_size else cls(tuple(ch))
                     kw = {} if pet else {'path_entry_type': int}
-                    o = world.attempt(lambda: optree.register_pytree_node(cls, fl, un, namespace=ns_arg(nt, nn), **kw))
+                    deco = False
+                    if len(res) % 2 == 1 and isinstance(cls, type) and cls not in deco_used:
+                        # every other step registers through the class-decorator form, which must be the same thing
+                        # (once per class: the decorator form looks tree_flatten up on the class at call time)
+                        deco_used.add(cls)
+                        try:
+                            cls.tree_flatten = fl
+                            cls.tree_unflatten = classmethod(lambda c, md, ch, un=un: un(md, ch))
+                            deco = True
+                        except (TypeError, AttributeError):
+                            deco = False
+                    if deco:
+                        o = world.attempt(lambda: optree.register_pytree_node_class(cls, namespace=ns_arg(nt, nn), **kw))
+                        if o[0] == 0 and o[1] is not cls:
+                            o = (1, 99, 'register_pytree_node_class did not return the class')
+                    else:
+                        o = world.attempt(lambda: optree.register_pytree_node(cls, fl, un, namespace=ns_arg(nt, nn), **kw))
                     if o[0] == 0:
                         counter[0] = k
                         o = (0,)
